@@ -16,7 +16,7 @@ from mc import wsh
 
 EVENTS = ["local_write_blocked", "peer_reset", "local_close", "local_close_code", "local_write", "peer_close_empty", "peer_close_1000",
           "peer_close_reason", "peer_close_bad_utf8", "peer_close_1byte", "peer_data", "peer_pong", "peer_eof",
-          "peer_half_frame_eof", "timer", "release", "tick", "local_close_zero"]
+          "peer_half_frame_eof", "timer", "release", "tick", "local_close_zero", "peer_fragment_start"]
 PEER_CLOSES = {"peer_close_empty": b"", "peer_close_1000": struct.pack("!H", 1000),
                "peer_close_reason": struct.pack("!H", 4000) + ("réason" + "x" * 116).encode(),    # 125 bytes: the largest legal close payload
                "peer_close_bad_utf8": struct.pack("!H", 4001) + b"\xff\xfe", "peer_close_1byte": b"\x03"}
@@ -78,10 +78,12 @@ def run(ch, role, pings, gated, depth, preamble=(), deflate=False, blockmode=Fal
                         continue
                     if e == "release" and not any(not g.done() for g in gates):
                         continue
-                    if e == "peer_data" and st["data_sent"] >= 2:
-                        continue
+                    if e == "peer_data" and (st["data_sent"] >= 2 or "peer_fragment_start" in preamble):
+                        continue        # (a new data frame inside the peer's open fragmented message is a violation: C15)
                     if e == "tick" and st.get("ticks", 0) >= 2:
                         continue
+                    if e == "peer_fragment_start" and not (step < len(preamble) and preamble[step] == e):
+                        continue        # only as a fixed prologue (mode "frag")
                     if e in ("local_write_blocked", "peer_reset") and not blockmode:
                         continue
                     if e == "local_write_blocked" and len(inflight) >= 2:
@@ -126,6 +128,9 @@ def run(ch, role, pings, gated, depth, preamble=(), deflate=False, blockmode=Fal
                 elif ev in PEER_CLOSES:
                     st["n_peer_close"] += 1
                     s.feed(s.frame(True, 8, PEER_CLOSES[ev]))
+                elif ev == "peer_fragment_start":
+                    # the peer is in the middle of a fragmented message: control frames (close, ping) may come in between
+                    s.feed(s.frame(False, 1, b"frag"))
                 elif ev == "peer_data":
                     st["data_sent"] += 1
                     if s.deflate is not None:
@@ -227,6 +232,64 @@ def run(ch, role, pings, gated, depth, preamble=(), deflate=False, blockmode=Fal
         finally:
             if role in ("client", "clientq"):
                 s.restore()
+
+
+def run_slow_open(kind, greet):
+    """The handler's open() is a coroutine that waits for something and then greets the client; the peer goes away
+    (EOF / reset) while open() is still running.  Whatever open() does with the failed write, the close notification
+    is owed exactly once."""
+    from tornado.websocket import WebSocketClosedError
+    with World() as w:
+        gate = []
+
+        class SlowOpen:
+            async def open(self):
+                self.rec["opens"] += 1
+                self.rec["handler"] = self
+                g = asyncio.Future()
+                gate.append(g)
+                await g
+                if greet:
+                    try:
+                        await self.write_message("greeting")
+                    except WebSocketClosedError:
+                        pass
+        s = wsh.ServerSession(w, handler_mixin=SlowOpen)
+        if not s.ok or not gate:
+            return {"handshake_failed": True}
+        if kind == "reset":
+            s.conn.sock.feed_error(OSError(errno.ECONNRESET, "reset by peer"))
+        elif kind == "eof":
+            s.conn.sock.feed_eof()
+        elif kind == "close-frame":
+            s.feed(s.frame(True, 8, struct.pack("!H", 1000)))
+        w.pump()
+        if greet and kind == "reset":
+            # the stream notices the reset when the handler writes
+            s.conn.sock.blocked = False
+        gate[0].set_result(None)
+        w.pump()
+        w.run_all_timers(10)
+        w.pump()
+        return {"closes": list(s.rec["closes"]), "closed": s.closed, "opens": s.rec["opens"],
+                "errs": [str(c.get("message"))[:80] for c in w.loop_errors()],
+                "logs": [(r[1], r[2][:60]) for r in w.logs.records if r[1] in ("ERROR", "CRITICAL")]}
+
+
+def judge_slow_open(o):
+    bad = []
+    if o.get("handshake_failed"):
+        return [("handshake-failed", "")]
+    if len(o["closes"]) != 1:
+        bad.append(("slow-open:close-notification-%d-times" % len(o["closes"]),
+                    "the peer went away while open() was running: on_close ran %d times" % len(o["closes"])))
+    if not o["closed"]:
+        bad.append(("slow-open:never-closed", "connection still open"))
+    if o["errs"]:
+        bad.append(("slow-open:loop-exception", repr(o["errs"][:2])))
+    if o["logs"]:
+        bad.append(("slow-open:error-log", repr(o["logs"][:1])))
+    return bad
 
 
 def judge(role, pings, o):
@@ -366,9 +429,25 @@ class C16(Check):
             for first in range(len(EVENTS)):
                 parts.append((role, False, False, first, (), "deflate"))                       # permessage-deflate negotiated
                 parts.append((role, False, False, first, ("local_write_blocked",), "block"))   # a write is in flight
+                parts.append((role, False, False, first, ("peer_fragment_start",), "frag"))    # the peer's message is half sent
+        parts.append(("slow-open",))
         return parts
 
     def run_partition(self, part, tier, st):
+        if part[0] == "slow-open":
+            for kind in ("reset", "eof", "close-frame"):
+                for greet in (False, True):
+                    o = run_slow_open(kind, greet)
+                    st.ev()
+                    st.transitions += 3
+                    key = h(("slow-open", kind, greet))
+                    st.states.add(key)
+                    st.nontrivial.add(key)
+                    st.outcome(h(("slow-open", len(o.get("closes", [])), o.get("closed"))))
+                    for sig, msg in judge_slow_open(o):
+                        st.violation("server:" + sig, "peer %s while a coroutine open() runs (greeting written: %r): %s" % (kind, greet, msg),
+                                     {"slow_open": [kind, greet]})
+            return
         role, pings, gated, first, preamble = part[:5]
         mode = part[5] if len(part) > 5 else ""
         depth = 3 if tier == "quick" else 5
@@ -405,6 +484,9 @@ class C16(Check):
         st.setmax("depth", depth)
 
     def replay(self, case):
+        if case.get("slow_open"):
+            o = run_slow_open(*case["slow_open"])
+            return "%r\nverdict %r" % (o, judge_slow_open(o))
         o = run(devex.Chooser(case["choices"]), case["role"], case["pings"], case["gated"], case["depth"],
                 tuple(case.get("preamble", ())), deflate=case.get("mode") == "deflate", blockmode=case.get("mode") == "block")
         return "%r\nverdict %r" % (o, judge(case["role"], case["pings"], o))
